@@ -94,7 +94,7 @@ async def _run_two(unsup, history, who):
     return outs
 
 
-async def _run(unsup, history, via, sources=None):
+async def _run(unsup, history, via, sources=None, reconnects=()):
     from pyplumio.devices.ecomax import EcoMAX
     from pyplumio.frames.messages import RegulatorDataMessage, SensorDataMessage
     from pyplumio.structures.network_info import NetworkInfo
@@ -112,6 +112,13 @@ async def _run(unsup, history, via, sources=None):
         await asyncio.sleep(0)
 
     for step, ann in enumerate(history):
+        if step in reconnects:
+            # the connection was lost and re-established before this announcement: the protocol keeps the device object and
+            # tells it connected=False, then connected=True (anything queued by that shows up in this step's output)
+            await dev.dispatch("connected", False)
+            await settle()
+            await dev.dispatch("connected", True)
+            await settle()
         if via == "dispatch":
             d = {}
             for c, v in ann:
@@ -142,7 +149,7 @@ class C15(Prop):
     rule = ("histories of 1-6 announcements over the known request kinds plus unknown codes with repeated / raised / lowered versions and "
             "duplicate codes inside one table, on devices with every kind of unsupported set (none, one, several, all); delivered as the "
             "frame_versions event, inside real sensor-data frames through handle_frame, and as sensor-data and regulator-data messages alternating "
-            "(a third of those replaying an earlier sensor-data message verbatim after a regulator-data announcement).  Non-trivial = at least one "
+            "(a third of those replaying an earlier sensor-data message verbatim after a regulator-data announcement; half of them with the connection lost and re-established - connected=False / True told to the same device object - between announcements).  Non-trivial = at least one "
             "refresh expected; distinct by (unsupported, history).")
     assumptions = ["announcements naming a known response/message kind make the handler raise TypeError (observation O1): outside the "
                    "property's quantifier, generated separately and compared with the model only"]
@@ -194,7 +201,11 @@ class C15(Prop):
                     src = ["S", "R", "S"] + [rng.choice("SR") for _ in hist[3:]]
                 else:
                     src = [rng.choice("SR") for _ in hist]
-                cases.append({"kind": "mixed-sources", "unsup": unsup, "history": hist, "sources": src})
+                case = {"kind": "mixed-sources", "unsup": unsup, "history": hist, "sources": src}
+                if rng.random() < 0.5:
+                    case["kind"] = "mixed-sources+reconnects"
+                    case["reconnects"] = sorted(rng.sample(range(0, len(hist)), rng.randrange(1, min(3, len(hist)) + 1)))
+                cases.append(case)
         return cases
 
     def run_impl(self, c):
@@ -202,7 +213,8 @@ class C15(Prop):
             return vloop.run(_run_two, c["unsup"], c["history"], c["who"])
         if "hist" in c:
             return vloop.run(_run_hist, c["hist"], "dispatch" if c["kind"].endswith("dispatch") else "frame")
-        return vloop.run(_run, c["unsup"], c["history"], "dispatch" if c["kind"] == "dispatch" else "frame", c.get("sources"))
+        return vloop.run(_run, c["unsup"], c["history"], "dispatch" if c["kind"] == "dispatch" else "frame", c.get("sources"),
+                         tuple(c.get("reconnects", ())))
 
     @staticmethod
     def _h(c):
